@@ -199,8 +199,18 @@ def case_s(draw) -> dict[str, Any]:
         program = [["sleep", 0.0501]] * draw(st.integers(0, 1)) + [["write", bytes([0x36, 0x01]) + bytes(range(256)) * (size // 256)]] + [["read", 1.3701]]
         reactions = [[[draw(st.sampled_from([5, 10, 30])), {"t": "ack", "echo": draw(st.sampled_from(["full", "partial", "empty"])), "n": 3}]]]
         unsolicited = [[t0 + 2 * i, {"t": "alive"}] for i in range(draw(st.integers(1, 8)))]
+    slow_all = False
+    if not slow and reactions != [] and draw(st.integers(0, 11)) == 0:
+        # a gateway that takes the request off the connection slowly and acknowledges it within the acknowledgement time counted
+        # from the hand-over - or just too late
+        slow_all, slow = True, draw(st.sampled_from([0.5001, 1.2001]))
+        late = draw(st.integers(0, 3)) == 0
+        ticks = int(round((slow + ACK_TIME * (1.2 if late else draw(st.sampled_from([0.6, 0.9, 0.97])))) / 0.01))
+        program = [["write", bytes([0x10]) + draw(st.binary(min_size=1, max_size=8))], ["read", 0.3701]]
+        reactions = [[[ticks, {"t": "ack", "echo": "full", "n": 3}]]]
+        unsolicited = []
     return {"src": src, "tgt": tgt, "ver": draw(st.sampled_from([2, 3, 3, 1])), "program": program, "reactions": reactions,
-            "unsolicited": unsolicited, "splits": draw(st.lists(st.integers(0, 200), max_size=8)), "slow_drain": slow}
+            "unsolicited": unsolicited, "splits": draw(st.lists(st.integers(0, 200), max_size=8)), "slow_drain": slow, "slow_all": slow_all}
 
 
 class SlowWriter(MemWriter):
@@ -268,6 +278,8 @@ def run_case(case: dict[str, Any]) -> dict[str, Any]:
 
         writer = SlowWriter(on_write)
         writer.drain_delay = case.get("slow_drain") or 0.0
+        if case.get("slow_all"):
+            writer.slow_min = 0
         for t, fr in case["unsolicited"]:
             wire.emit(t, enc(fr, src, tgt, ver, None), {"frame": fr})
         conn = DoIPConnection(reader, writer, src, tgt, ver)  # type: ignore[arg-type]
@@ -383,6 +395,8 @@ def check(case: dict[str, Any]) -> list[tuple[str, str]]:
         t0 = op.t0
         if op.kind == "write":
             req = bytes(op.arg)
+            if case.get("slow_all"):
+                t0 = t0 + case["slow_drain"]  # the acknowledgement time runs from the hand-over of the request
             deadline = t0 + ACK_TIME
             exp = ("connerr", deadline)
             for i, (f, c) in enumerate(zip(frames, cls)):
